@@ -124,15 +124,18 @@ CHECKS["C24"] = dict(
         "respects the variables' annotations: bottom-up abstract evaluation with BackendVSA's If rule contains the expression's value "
         "whenever each operator's transfer function and the join are sound and has_true/has_false are complete (C24_aeval), also after "
         "ITE excavation as in BackendVSA.convert (C24_convert, using C08's excavation theorem), and for the executable table-driven "
-        "instance (C24_table); the hypotheses are dischargeable: table entries for + and - by C21's theorems (C24_add_entry, "
-        "C24_sub_entry) and the If-join by C22's union theorem (C24_union_join). Tie: the real BackendVSA.convert runs with its operator applications recorded (run-time wrapper around "
+        "instance (C24_table); the hypotheses are discharged for the modelled operators: table entries for + - unary- ~ ZeroExt and the eight "
+        "order comparisons by C21's theorems (C24_add_entry, C24_sub_entry, C24_neg_entry, C24_invert_entry, C24_zext_entry, "
+        "C24_cmp_entries) and the If-join by C22's union theorem (C24_union_join); every recorded entry of those operators on plain "
+        "intervals is compared with the proved strided-interval model on every run (about 3300 entries in the quick tier), so its "
+        "soundness is a theorem and not a hypothesis of the run. Tie: the real BackendVSA.convert runs with its operator applications recorded (run-time wrapper around "
         "_call); the extracted model replays the evaluation of the excavated tree from that table and must reach the same abstract value. "
         "Search: every assignment inside the intervals is enumerated with the extracted SMT-LIB evaluator (1-3 variables, width 2-4); a "
         "missing value is located at the sub-expression where soundness is lost; if that node carries exactly the interval-level result, "
         "the failure is the transfer function's (C21 known findings, reported as KNOWN-FINDING site=transfer:<op>), otherwise a violation. "
         "SolverVSA eval/min/max/solution/satisfiable/is_true/is_false/add are checked against the same enumeration.",
    design="5/C24", technique="Coq proof of abstract-interpretation soundness; recorded-table replay by extraction; exhaustive enumeration search",
-   note="Trusted: Coq kernel; extraction; the run-time recorder. Transfer functions, joins and comparisons are hypotheses (C21/C22). "
+   note="Trusted: Coq kernel; extraction; the run-time recorder. The transfer functions that are not modelled (mul, div, mod, and/or/xor, shifts, SignExt, Extract, Concat, ==) and joins of non-interval values are hypotheses (C21/C22). "
         "Region annotations/value sets and discrete sets at the AST level are covered by C23's check, not here.")
 
 CHECKS["C25"] = dict(
